@@ -52,6 +52,52 @@ theorem Basic.mem_apart {cfg : Cfg} {w w' : World α} {c : Nat} (hb : Basic cfg 
     (h1 : b ≠ (w.hdr c).data) (h2 : b ≠ (w.hdr c).inl) (h3 : b < w.next) (h4 : b % 2 = 1 ∨ b < 5) : w'.mem b = w.mem b :=
   hb.frame.mem_other b h1 h2 h3 h4
 
+/-- an operation on `c` with a `Basic` outcome does not touch any other constructed container: same header, same
+    buffer contents, same in-object buffer -/
+theorem SysOK.other {cfg : Cfg} {w w' : World α} {A : List Nat} {c : Nat} (hs : SysOK cfg w A) (hc : c ∈ A)
+    (hb : Basic cfg w w' c) : ∀ d ∈ A, d ≠ c →
+      w'.hdr d = w.hdr d ∧ w'.mem (w.hdr d).data = w.mem (w.hdr d).data ∧ w'.mem (w.hdr d).inl = w.mem (w.hdr d).inl := by
+  have hvc := hs.vec c hc
+  have hl := hs.led
+  have hfr := hb.frame
+  have hn5 := hl.next_ok.2
+  intro d hd hdc
+  have hvd := hs.vec d hd
+  have hsep := hs.sep d hd c hc hdc
+  have hdi5 := hvd.inl_lt
+  have hci5 := hvc.inl_lt
+  -- d's in-object buffer
+  have hinl : w'.mem (w.hdr d).inl = w.mem (w.hdr d).inl := by
+    rcases hsep.inl with hne | ⟨hN1, hN2⟩
+    · refine hb.mem_apart ?_ hne (by omega) (Or.inr hdi5)
+      intro h
+      by_cases hch : (w.hdr c).data = (w.hdr c).inl
+      · exact hne (h.trans hch)
+      · have := (hvc.data_odd hl hch).1; omega
+    · -- both have inline capacity 0: the null block is empty before and after
+      have e1 := hvd.inl_nil hN1
+      by_cases hii : (w.hdr d).inl = (w.hdr c).inl
+      · have hN' : (w'.hdr c).N = 0 := by rw [hfr.hdr_N]; exact hN2
+        have e2 := hb.vec.inl_nil hN'
+        rw [hfr.hdr_inl] at e2
+        rw [hii, e2, ← hii, e1]
+      · refine hb.mem_apart ?_ hii (by omega) (Or.inr hdi5)
+        intro h
+        by_cases hch : (w.hdr c).data = (w.hdr c).inl
+        · exact hii (h.trans hch)
+        · have := (hvc.data_odd hl hch).1; omega
+  refine ⟨hfr.hdr_other d hdc, ?_, hinl⟩
+  by_cases hdh : (w.hdr d).data = (w.hdr d).inl
+  · rw [hdh]; exact hinl
+  · have hodd := hvd.data_odd hl hdh
+    refine hb.mem_apart (hsep.data hdh) (by omega) hodd.2.2 (Or.inl hodd.2.1)
+
+/-- … so it still holds the same values -/
+theorem SysOK.holds_other {cfg : Cfg} {w w' : World α} {A : List Nat} {c d : Nat} {xs : List (Val α)} (hs : SysOK cfg w A)
+    (hc : c ∈ A) (hb : Basic cfg w w' c) (hd : d ∈ A) (hdc : d ≠ c) (hx : Holds w d xs) : Holds w' d xs := by
+  obtain ⟨hh, hm, _⟩ := hs.other hc hb d hd hdc
+  exact ⟨by rw [hh]; exact hx.1, fun i hi => by rw [hh, hm]; exact hx.2 i hi⟩
+
 /-- ONE STEP: an operation on `c ∈ A` with a `Basic` outcome keeps the whole system valid -/
 theorem SysOK.step {cfg : Cfg} {w w' : World α} {A : List Nat} {c : Nat} (hs : SysOK cfg w A) (hc : c ∈ A)
     (hb : Basic cfg w w' c) : SysOK cfg w' A := by
@@ -59,40 +105,7 @@ theorem SysOK.step {cfg : Cfg} {w w' : World α} {A : List Nat} {c : Nat} (hs : 
   have hl := hs.led
   have hfr := hb.frame
   have hn5 := hl.next_ok.2
-  -- facts about any other constructed container `d`
-  have other : ∀ d ∈ A, d ≠ c →
-      w'.hdr d = w.hdr d ∧ w'.mem (w.hdr d).data = w.mem (w.hdr d).data ∧ w'.mem (w.hdr d).inl = w.mem (w.hdr d).inl := by
-    intro d hd hdc
-    have hvd := hs.vec d hd
-    have hsep := hs.sep d hd c hc hdc
-    have hsep' := hs.sep c hc d hd (Ne.symm hdc)
-    have hdi5 := hvd.inl_lt
-    have hci5 := hvc.inl_lt
-    -- d's in-object buffer
-    have hinl : w'.mem (w.hdr d).inl = w.mem (w.hdr d).inl := by
-      rcases hsep.inl with hne | ⟨hN1, hN2⟩
-      · refine hb.mem_apart ?_ hne (by omega) (Or.inr hdi5)
-        intro h
-        by_cases hch : (w.hdr c).data = (w.hdr c).inl
-        · exact hne (h.trans hch)
-        · have := (hvc.data_odd hl hch).1; omega
-      · -- both have inline capacity 0: the null block is empty before and after
-        have e1 := hvd.inl_nil hN1
-        by_cases hii : (w.hdr d).inl = (w.hdr c).inl
-        · have hN' : (w'.hdr c).N = 0 := by rw [hfr.hdr_N]; exact hN2
-          have e2 := hb.vec.inl_nil hN'
-          rw [hfr.hdr_inl] at e2
-          rw [hii, e2, ← hii, e1]
-        · refine hb.mem_apart ?_ hii (by omega) (Or.inr hdi5)
-          intro h
-          by_cases hch : (w.hdr c).data = (w.hdr c).inl
-          · exact hii (h.trans hch)
-          · have := (hvc.data_odd hl hch).1; omega
-    refine ⟨hfr.hdr_other d hdc, ?_, hinl⟩
-    by_cases hdh : (w.hdr d).data = (w.hdr d).inl
-    · rw [hdh]; exact hinl
-    · have hodd := hvd.data_odd hl hdh
-      refine hb.mem_apart (hsep.data hdh) (by omega) hodd.2.2 (Or.inl hodd.2.1)
+  have other := hs.other hc hb
   refine ⟨?_, ?_, hb.led, by rw [hb.ub]; exact hs.ub, ?_, ?_⟩
   · -- every container is still valid
     intro d hd
